@@ -70,6 +70,20 @@ func genRegexp(t *rapid.T) string {
 
 func genC09(t *rapid.T) interface{} {
 	c := &C09Case{Data: genContent(t, "d", 8), PreLens: []int{}}
+	long := rapid.IntRange(0, 24).Draw(t, "long") == 11
+	if long {
+		// tokens longer than any look-ahead window: a quoted string, a run of one letter closed by
+		// another, a long number - each 200-700 bytes, positions far from both ends included
+		n := rapid.SampledFrom([]int{200, 254, 255, 256, 257, 300, 511, 512, 700}).Draw(t, "longN")
+		switch rapid.IntRange(0, 2).Draw(t, "longKind") {
+		case 0:
+			c.Data = append(append([]byte(`x "`), bytes.Repeat([]byte("q"), n)...), []byte(`" y`)...)
+		case 1:
+			c.Data = append(bytes.Repeat([]byte("a"), n), []byte("b a")...)
+		default:
+			c.Data = append(append([]byte("7"), bytes.Repeat([]byte("0"), n)...), []byte(".5 ")...)
+		}
+	}
 	switch rapid.IntRange(0, 3).Draw(t, "placement") {
 	case 0:
 	case 1:
@@ -123,6 +137,9 @@ func genC09(t *rapid.T) interface{} {
 			c.Regexps = append(c.Regexps, fmt.Sprintf("[ab]{%d}", k), fmt.Sprintf("a{%d}b?", k))
 		}
 	}
+	if long {
+		c.Regexps = append(c.Regexps, `"[^"]*"`, `a+b|a`, `a+b`, `[0-9]+\.[0-9]+`, `[0-9]+`, `a*?b`)
+	}
 	c.TakeN = []int{1, rapid.IntRange(1, 6).Draw(t, "take")}
 	c.ReaderFirst = rapid.IntRange(0, 2).Draw(t, "readerFirst") == 0
 	c.ViaDisk = rapid.IntRange(0, 5).Draw(t, "viaDisk") == 3
@@ -172,6 +189,9 @@ func checkC09(ci interface{}, st *Stats) error {
 	}
 	// a second reader and file with the regexps used in a different order must agree (cache keyed by expression)
 	for o := 0; o <= len(d); o++ {
+		if len(d) > 64 && o > 8 && o < len(d)-8 && o%61 != 0 {
+			continue // long contents: both ends and every 61st offset
+		}
 		pos := parsley.Pos(base + o)
 		if f.Pos(o) != pos || r.Pos(o) != pos {
 			return fmt.Errorf("Pos(%d) = %d / %d, want %d", o, f.Pos(o), r.Pos(o), pos)
